@@ -208,16 +208,22 @@ pub fn gen_val(ch: &mut Choices<'_>, t: &MType, h: &Hints) -> MVal {
         MType::Bytes => MVal::Bytes(gen_bytes(ch, &h.bytes)),
         MType::Ip => MVal::Ip(gen_ip(ch, &h.ips)),
         MType::Array(e) => {
-            let n = ch.weighted(&[2, 3, 3, 2, 1, 1]);
+            let n = ch.weighted(&[2, 2, 3, 3, 3, 2, 1]);
             MVal::Array((**e).clone(), (0..n).map(|_| gen_val(ch, e, h)).collect())
         }
         MType::Map(e) => {
-            let n = ch.weighted(&[2, 3, 3, 2, 1]);
             let mut m = BTreeMap::new();
+            // keys used by the filter are usually present
+            let mut seen = BTreeSet::new();
+            for k in &h.keys {
+                if seen.insert(k.clone()) && seen.len() <= 4 && ch.chance(2, 3) {
+                    m.insert(k.as_bytes().to_vec(), gen_val(ch, e, h));
+                }
+            }
+            let n = ch.weighted(&[3, 3, 2, 1, 1]);
             for _ in 0..n {
-                let k: Vec<u8> = match ch.weighted(&[3, if h.keys.is_empty() { 0 } else { 5 }, 1]) {
+                let k: Vec<u8> = match ch.weighted(&[4, 1]) {
                     0 => ch.pick(KEY_POOL).as_bytes().to_vec(),
-                    1 => ch.pick(&h.keys).as_bytes().to_vec(),
                     _ => ch.pick(&[&b"\xff"[..], b"a\xfe", b"\x00"]).to_vec(),
                 };
                 m.insert(k, gen_val(ch, e, h));
@@ -331,7 +337,7 @@ impl<'c, 'd> Gen<'c, 'd> {
         name
     }
 
-    fn need_func(&mut self, name: &str) {
+    pub fn need_func(&mut self, name: &str) {
         if name == "concat" {
             self.r.concat = true;
         } else if !self.r.funcs.iter().any(|f| f == name) {
@@ -665,6 +671,21 @@ impl<'c, 'd> Gen<'c, 'd> {
             }
             self.need_func("concat");
             return Some(MIndex { base: MBase::Call { func: "concat".into(), args }, path: vec![] });
+        }
+        if *target == MType::Int && stars == 0 && self.ch.chance(1, 8) {
+            // the hand-written definition with a per-call context
+            let mapped = self.cfg.stars && self.ch.chance(1, 4);
+            let first = if mapped { self.gen_index(&MType::Bytes, 1, 0) } else { self.gen_index(&MType::Bytes, 0, 0) };
+            let mapped = first.stars() > 0;
+            let mut args = vec![MArg::Index(first)];
+            let n = self.ch.draw(3);
+            for _ in 0..n {
+                let v = self.ch.draw(50) as i64;
+                args.push(MArg::Lit(MLit::Int(IntLit { v, form: IntForm::Dec })));
+            }
+            self.need_func("ctxfn");
+            let path = if mapped { vec![self.gen_idx()] } else { vec![] };
+            return Some(MIndex { base: MBase::Call { func: "ctxfn".into(), args }, path });
         }
         let cands = self.candidates(target, stars);
         if cands.is_empty() {
